@@ -19,12 +19,7 @@ Definition expand_runs (rs : list (Z * Z * Z)) : list (Z * Z) :=
 
 (* ---- domains of the known findings (functions of the configuration only) ---- *)
 
-(* adaptive-chunksize-narrowing: StripeState::chunkSize is IntegerT; the size_type chunk size does not fit *)
-Definition c12_narrow_domain (c : pfcfg) : bool :=
-  match pf_mode c, pf_scfg c with
-  | MAdaptive, Some sc => negb (sc_step sc =? sc_cs sc)
-  | _, _ => false
-  end.
+(* (the former finding adaptive-chunksize-narrowing -- StripeState::chunkSize narrowed to IntegerT -- is fixed in /repo) *)
 
 (* adaptive-cursor-wrap-64bit: a stripe cursor that has been advanced [fails] times beyond its last successful
    claim leaves the 64-bit cursor type.  [fails] bounds the failed claims per stripe (owner: 1; a stealer: 1 per
@@ -41,15 +36,13 @@ Definition c12_fail_budget : Z := 2 ^ 20.
 (* one parallel_for case: configuration, L3 group count of the machine, "the body was called too often to
    record" flag, the recorded invocations sorted by (begin, end).
    0 = equals the model's plan and is a partition; 1 = partition but differs from the plan;
-   2 = not a partition (outside every known-finding domain); 11 / 12 / 13 = not a partition, inside the
-   cursor-wrap / chunk-size-narrowing / explicit-chunk-overflow domain *)
+   2 = not a partition (outside every known-finding domain); 11 = not a partition, inside the
+   cursor-wrap domain *)
 Definition judge_c12 (x : pfcfg * Z * bool * list (Z * Z * Z)) : Z :=
   let '(cfg, l3, overrun, runs) := x in
   let impl := expand_runs runs in
   if overrun || negb (partitionb (pf_s cfg) (pf_e cfg) impl) then
-    if c12_narrow_domain cfg then 12
-    else if c12_wrap_domain c12_fail_budget cfg then 11
-    else if c12_chunkovf_domain cfg then 13
+    if c12_wrap_domain c12_fail_budget cfg then 11
     else 2
   else match pf_canon cfg l3 with
        | Some m => if zpairs_eqb m impl then 0 else 1
